@@ -918,7 +918,8 @@ static int vi_change(int r1, int o1, int r2, int o2, int lnmode)
 	char *rep;
 	char *pref, *post;
 	region = lbuf_region(xb, r1, lnmode ? 0 : o1, r2, lnmode ? -1 : o2);
-	reg_put(vi_ybuf, region, lnmode);
+	if (lnmode || region[0])
+		reg_put(vi_ybuf, region, lnmode);
 	free(region);
 	pref = lnmode ? vi_indents(lbuf_get(xb, r1)) : uc_sub(lbuf_get(xb, r1), 0, o1);
 	post = lnmode || !lbuf_get(xb, r2) ? uc_dup("\n") : uc_sub(lbuf_get(xb, r2), o2, -1);
@@ -1063,6 +1064,8 @@ static int vc_motion(int cmd)
 	if (!lnmode && (strchr("eE%", mv) || (!back && strchr("fFtT;,", mv))))
 		if (o2 < lbuf_eol(xb, r2))
 			o2 = ren_noeol(lbuf_get(xb, r2), o2) + 1;
+	if (!lnmode && r1 == r2 && o1 == o2 && (cmd == 'y' || cmd == 'd'))
+		return 0;		/* nothing to yank or delete: keep the register */
 	if (cmd == 'y')
 		return vi_yank(r1, o1, r2, o2, lnmode);
 	if (cmd == 'd')
